@@ -1606,6 +1606,15 @@ impl Server {
             _ => Ok(RespFrame::error(format!("ERR unknown command '{}'", command_name))),
         };
         
+        // Wake-ups requested by this command (LPUSH/RPUSH on a key with blocked clients) are carried out
+        // now: the element reaches the waiter before the next command of this batch, or another
+        // connection processed in this loop iteration, can pop it and leave the waiter stranded
+        if self.blocking_manager.has_pending_wakeups() {
+            if let Err(e) = self.process_wakeups() {
+                eprintln!("Error processing wake-ups: {}", e);
+            }
+        }
+        
         // Auto-save change recording - always enabled (independent of monitoring)
         if self.is_write_command(&command_name) {
             if let Ok(resp) = &result {
